@@ -1,4 +1,5 @@
 import Xo.Lemmas.LayoutRT
+import Xo.Lemmas.Path
 /-! C01 — values written at construction are read back exactly (property theorems only).
 Reference-free grammar, nested to any depth; every conforming value; any buffer image and any placement with room.
 References / union references and copy-construction from existing objects are covered by the executable heap model's tie
@@ -55,5 +56,30 @@ example :
         (.struct [.bits 513, .arr [1, 2] [.str [104, 105], .cap 3]]))) (List.replicate 100 0xA5)) 3
       = Val.norm (.struct [.bits 513, .arr [1, 2] [.str [104, 105], .cap 3]]) := by
   rfl
+
+/-- **every nested accessor**: a part of a written object (field of a struct, item of an array; static or dynamic sizes) is
+itself a written object at the part's offset - so the round trip, read locality, the header facts and this theorem again apply
+to it: the statement descends to any depth -/
+theorem C01_part_is_written (t : Ty) (v : Val) (hw : t.WF) (hc : Conf t v) (k o : Nat) (t' : Ty) (v1 : Val)
+    (hp : part t v k = some (o, t', v1)) (m0 : Mem) (off : Nat) (hb : off + vsize t v ≤ m0.length) (m' : Mem)
+    (hag : Agree m' (apply (shift off (patchesD t v)) m0) off (off + vsize t v)) :
+    t'.WF ∧ Conf t' v1 ∧ o + vsize t' v1 ≤ vsize t v ∧
+    ∃ m1 : Mem, m1.length = m0.length ∧
+      Agree m' (apply (shift (off + o) (patchesD t' v1)) m1) (off + o) (off + o + vsize t' v1) :=
+  part_agree t v hw hc k o t' v1 hp m0 off hb m' hag
+
+/-- **every element accessor, at every nesting level**: the `w` bytes at the address of the scalar element a path ends in -
+what a Python leaf accessor and a generated C getter load - are the little-endian image of exactly the element's value -/
+theorem C01_read_leaf_at_path (t : Ty) (v : Val) (hw : t.WF) (hc : Conf t v) (hs : vsize t v < 2 ^ 64)
+    (p : List Nat) (lo w : Nat) (hl : leafAt t v p = some (lo, w))
+    (m0 : Mem) (off : Nat) (hb : off + vsize t v ≤ m0.length) (m' : Mem)
+    (hag : Agree m' (apply (shift off (patchesD t v)) m0) off (off + vsize t v)) :
+    ∃ b, b < 256 ^ w ∧ getAt t v p = some b ∧ fromLE (readAt m' (off + lo) w) = b := by
+  obtain ⟨b, h1, h2, _, h4⟩ := leaf_read p t v lo w hw hc hs hl m0 off hb m' hag
+  exact ⟨b, h1, h2, h4⟩
+
+example : getAt (.struct [.string, .array (.struct [.scalar 2, .string]) [none] [0], .scalar 8])
+      (.struct [.str [97], .arr [2] [.struct [.bits 5, .str [1,2,3,4,5,6,7,8,9]], .struct [.bits 6, .str []]], .bits 7]) [1, 1, 0]
+      = some 6 := rfl
 
 end Lay
